@@ -287,7 +287,8 @@ def _clean(shard, ctx, res, only):
                             expect = np.float32(np.median(means[~cm])).astype(fx.NP_DTYPE[nbits]).astype(np.float32)
                         else:
                             expect = np.float32(mv)
-                        if not np.all(Y[:, cm] == expect):
+                        # NaN-aware: when every channel is masked the default value (median of no channel) is NaN
+                        if not np.array_equal(Y[:, cm], np.full(Y[:, cm].shape, expect, dtype=Y.dtype), equal_nan=True):
                             res.violation({"site": "Filterbank.clean_rfi", "symptom": "masked channel does not hold the mask value in every sample", "nbits": nbits,
                                            "default_value": mv is None}, case,
                                           f"gulp {g}: expected {expect!r}, masked channels {np.flatnonzero(cm).tolist()} hold values {np.unique(Y[:, cm]).tolist()[:6]}")
